@@ -410,6 +410,11 @@ pub fn step_owned(mut w2: World, w: &World, sid: u32, op: &Op, cfg: &StepCfg) ->
         Outcome::Err(e) => {
             info.outcome = "err";
             info.err_text = e.clone();
+            // not a refusal by the store: an oracle inside the call sequence of a batch operation
+            if let Some(m) = e.strip_prefix("oracle:C11:") {
+                info.violations.push(Violation::new("C11", "view-disagreement", format!("{}: {} [cell {}]", op.name(), m, info.cell)));
+                return fail(w2, info, cfg);
+            }
             w2.model = pre_model;
             if let Err(v) = w2.compare_with_model(None, None) {
                 if v.property == "C04" {
